@@ -359,3 +359,13 @@ package openapi3filter
 //@   ensures @C13 [present-parameter-untouched] old(decValue(parameter, input)) != nil ==> unchanged(http.Request.URL, http.Request.Header, url.URL.RawQuery, http.Header)
 //@   ensures @C13 [no-default-nothing-written] !old(hasDefault(parameter.Schema.Value)) ==> unchanged(http.Request.URL, http.Request.Header, url.URL.RawQuery, http.Header)
 //@   tag C13
+
+// ---- the deepObject reader of the query object decoder (a function literal): only query keys of
+// the form <param>[...] belong to the parameter; without such a key the parameter is absent
+//@ func (*urlValuesDecoder).DecodeObject$2
+//@   modifies *
+//@   preserves all(openapi3), urlValuesDecoder.*, http.Header, []string
+//@   loop 0 invariant fresh(props) && props != nil
+//@   loop 0 invariant (forall key string :: has(params, key) ==> !hasPrefix(key, concat(param, "["))) ==> len(props) == 0
+//@   ensures [absent-without-own-keys] (forall key string :: has(params, key) ==> !hasPrefix(key, concat(param, "["))) ==> result.0 == nil && result.1 == nil
+//@   tag C05
